@@ -263,9 +263,15 @@ func c02Typestate(p *Prog, l *Ledger) {
 				count := 0
 				var how []string
 				returnedAsSuccess := false
+				// values are compared after resolving merges (phis) along the path: a result that flows through an inlined
+				// helper's return, or through a local assigned on several branches, is still the same listener
+				is := func(v ssa.Value, step int) bool {
+					return v != nil && strip(pa.Resolve(v, step), false) == s.val
+				}
+				lastStep := len(pa.Blocks) - 1
 				// (1) returned directly
 				for ri, r := range rv {
-					if strip(r, false) == s.val && ri == 0 {
+					if is(r, lastStep) && ri == 0 {
 						ok2 := true
 						if len(rv) == 2 {
 							r1 := strip(rv[1], false)
@@ -291,13 +297,13 @@ func c02Typestate(p *Prog, l *Ledger) {
 					}
 					switch x := ins.(type) {
 					case *ssa.Store:
-						if strip(x.Val, false) == s.val {
+						if is(x.Val, step) {
 							if fa, ok := x.Addr.(*ssa.FieldAddr); ok {
 								if al, ok := AccessPath(fa.X).Root.(*ssa.Alloc); ok {
 									// wrapped into a fresh struct: consumed iff that struct is returned as success
 									wrappedRet := false
 									for _, r := range rv {
-										if strip(r, false) == ssa.Value(al) {
+										if strip(pa.Resolve(r, lastStep), false) == ssa.Value(al) {
 											wrappedRet = true
 										}
 									}
@@ -310,25 +316,62 @@ func c02Typestate(p *Prog, l *Ledger) {
 							}
 						}
 					case *ssa.Send:
-						if strip(x.X, false) == s.val {
+						if is(x.X, step) {
 							count++
 							how = append(how, "sent")
+						}
+					case *ssa.Select:
+						// a hand-off written in place: select { case ch <- listener: ...; default: ... }
+						for si2, st2 := range x.States {
+							if st2.Dir != types.SendOnly || !is(st2.Send, step) {
+								continue
+							}
+							var idxV ssa.Value
+							if refs := x.Referrers(); refs != nil {
+								for _, r := range *refs {
+									if ex, ok := r.(*ssa.Extract); ok && ex.Index == 0 {
+										idxV = ex
+									}
+								}
+							}
+							chosen, known := -1, false
+							for _, rel := range pa.Rels(-1) {
+								if strip(rel.X, false) == idxV && idxV != nil {
+									if k, ok := constInt(rel.Y); ok {
+										if rel.Op == token.EQL {
+											chosen, known = int(k), true
+										} else if rel.Op == token.NEQ && int(k) == si2 {
+											chosen, known = -2, true
+										}
+									}
+								}
+							}
+							switch {
+							case !known && len(x.States) == 1 && x.Blocking:
+								count++
+								how = append(how, "sent")
+							case !known:
+								bad = append(bad, fmt.Sprintf("%s: the listener is offered on a channel but the outcome of the select is not tested", p.At(x)))
+							case chosen == si2:
+								count++
+								how = append(how, "delivered")
+							}
 						}
 					case *ssa.Call:
 						c := p.CallOf(x)
 						for _, o := range c02Outcomes {
-							if p.isCoreInvoke(c, "Listener", o) && strip(c.Recv, false) == s.val {
+							if p.isCoreInvoke(c, "Listener", o) && is(c.Recv, step) {
 								count++
 								how = append(how, o)
 							}
 						}
-						if p.isCoreInvoke(c, "StrategyToken", "Release") && strip(c.Recv, false) == s.val {
+						if p.isCoreInvoke(c, "StrategyToken", "Release") && is(c.Recv, step) {
 							count++
 							how = append(how, "Release")
 						}
 						if c.Static != nil && p.InModule(c.Static) {
 							for _, a := range c.Args {
-								if strip(a, false) == s.val {
+								if is(a, step) {
 									res := c.Static.Signature.Results()
 									if res.Len() == 1 {
 										if b, ok := res.At(0).Type().Underlying().(*types.Basic); ok && b.Kind() == types.Bool {
